@@ -131,6 +131,16 @@ def bufferHeaders (w : Writer) (sid : Nat) (eos : Bool) (fields : List Hpack.Fie
             done := some s!"H:{sid}:{flags}:{block.length}:{renderFields fields}" }
   | none => { w with unsupported := true }
 
+/-- `Encoder::buffer(Frame::PushPromise(v))`: the promised id (4 octets) precedes the block -/
+def bufferPushPromise (w : Writer) (sid promised : Nat) (fields : List Hpack.Field) : Writer :=
+  match w.hpack.encode fields with
+  | some (e', block) =>
+    let w := { w with hpack := e' }
+    let w := if 4 + block.length > w.maxFrameSize then { w with unsupported := true } else w
+    w.put { bytes := Generated.Consts.HEADER_LEN + 4 + block.length,
+            done := some s!"PP:{sid}:{promised}:{4 + block.length}:{renderFields fields}" }
+  | none => { w with unsupported := true }
+
 /-- `Encoder::unset_frame` (no CONTINUATION in this abstraction) -/
 def unsetFrame (w : Writer) : Writer :=
   let w := { w with buf := [], bufLen := 0 }
